@@ -46,6 +46,7 @@ pub fn profile() -> Profile {
     p.overrides = 2;
     p.ov_sized_array = 4;
     p.struct_helpers = 2;
+    p.ty.len_edges = 2;
     p
 }
 
